@@ -16,7 +16,9 @@ proves every generated formula equal to the hand-written model (upwindSt, fsign,
 The interpreter is tnum.Interp (abstract interpretation over symbolic arrays, see tnum.py) EXTENDED by
   parameters       `def f(u, *args)` / `def f(u, phi, FL, *args)`; `if len(args) > 0: X = args[0] else: X = <expr>` is
                    executed twice: with an extra argument (args[0] is a second face field `uUp`) and without (the
-                   `_noarg` definitions; emitted as `f M u u ..` when the two runs agree up to renaming uUp := u)
+                   `_noarg` definitions; emitted as `f M u u ..` when the two runs agree up to renaming uUp := u).
+                   The test may be any of `len(args) <cmp> c`, `c <cmp> len(args)`, `args`, `bool(args)`, `not ...` that is
+                   equivalent to `len(args) > 0` (or to its negation) for EVERY number of extra arguments (evaluated)
   leaves           <phi>._value[p,q,r] = φ (p, q, r) (shape (X+2, Y+2, Z+2));   FL(a) = FL applied elementwise
                    (uninterpreted `FL : α → α`, TRUSTED to be elementwise)
   helpers          a call of a module-level function with parameter objects as arguments (`_upwind_min_max(u, u_upwind)`)
@@ -297,6 +299,7 @@ class UInterp(tnum.Interp):
                 raise Bad("statement after return")
             if isinstance(st, ast.Expr) and isinstance(st.value, ast.Constant) and isinstance(st.value.value, str):
                 continue
+            st = tnum.plain_assign(st)
             if isinstance(st, ast.Assign):
                 self.assign(st)
             elif isinstance(st, ast.AugAssign):
@@ -310,10 +313,66 @@ class UInterp(tnum.Interp):
             else:
                 raise Bad(f"statement {type(st).__name__} (line {st.lineno})")
 
+    def vararg_test(self, t):
+        """True / False if `t` is a test on *args that is equivalent, FOR EVERY number n >= 0 of extra arguments, to
+        `len(args) > 0` / to `len(args) == 0`; None otherwise.  Forms: `len(args) <cmp> c`, `c <cmp> len(args)`,
+        `args`, `bool(args)`, `not <such a test>`; decided by evaluating the test for n = 0 .. |c| + 3."""
+        va = self.vararg
+        if va is None or va in self.env:
+            return None
+
+        def is_len(n):
+            return (isinstance(n, ast.Call) and isinstance(n.func, ast.Name) and n.func.id == "len" and not n.keywords
+                    and len(n.args) == 1 and isinstance(n.args[0], ast.Name) and n.args[0].id == va)
+
+        def is_int(n):
+            return isinstance(n, ast.Constant) and type(n.value) is int
+
+        consts = []
+
+        def shape_ok(n):
+            if isinstance(n, ast.UnaryOp) and isinstance(n.op, ast.Not):
+                return shape_ok(n.operand)
+            if isinstance(n, ast.Name) and n.id == va:
+                return True
+            if isinstance(n, ast.Call) and isinstance(n.func, ast.Name) and n.func.id == "bool" and not n.keywords \
+                    and len(n.args) == 1 and isinstance(n.args[0], ast.Name) and n.args[0].id == va:
+                return True
+            if isinstance(n, ast.Compare) and len(n.ops) == 1 and isinstance(n.ops[0], (ast.Gt, ast.GtE, ast.Lt, ast.LtE,
+                                                                                       ast.Eq, ast.NotEq)):
+                l, r = n.left, n.comparators[0]
+                if (is_len(l) and is_int(r)) or (is_int(l) and is_len(r)):
+                    consts.append(r.value if is_int(r) else l.value)
+                    return True
+            return False
+
+        if "len" in self.env or "bool" in self.env or "len" in tnum.SHADOWED or "bool" in tnum.SHADOWED \
+                or not shape_ok(t):
+            return None
+
+        def val(n, k):
+            if isinstance(n, ast.UnaryOp):
+                return not val(n.operand, k)
+            if isinstance(n, (ast.Name, ast.Call)) and not is_len(n):
+                return k > 0
+            l, r = n.left, n.comparators[0]
+            a = k if is_len(l) else l.value
+            b = k if is_len(r) else r.value
+            op = type(n.ops[0])
+            return {ast.Gt: a > b, ast.GtE: a >= b, ast.Lt: a < b, ast.LtE: a <= b, ast.Eq: a == b, ast.NotEq: a != b}[op]
+
+        ks = range(0, max([abs(c) for c in consts] + [0]) + 4)
+        if all(val(t, k) == (k > 0) for k in ks):
+            return True
+        if all(val(t, k) == (k == 0) for k in ks):
+            return False
+        return None
+
     def test(self, t):
         txt = ast.unparse(t)
-        if self.vararg is not None and txt == f"len({self.vararg}) > 0":
-            return self.has_arg
+        vt = self.vararg_test(t)
+        if vt is not None:
+            return self.has_arg if vt else not self.has_arg
         if (isinstance(t, ast.Call) and isinstance(t.func, ast.Name) and t.func.id == "issubclass" and len(t.args) == 2
                 and not t.keywords and isinstance(t.args[1], ast.Name) and isinstance(t.args[0], ast.Call)
                 and isinstance(t.args[0].func, ast.Name) and t.args[0].func.id == "type" and len(t.args[0].args) == 1
@@ -575,8 +634,7 @@ class UInterp(tnum.Interp):
     def parse_index(self, items, txt):
         spec = []
         for it in items:
-            if isinstance(it, ast.Attribute) and isinstance(it.value, ast.Name) and it.value.id == "np" \
-                    and it.attr == "newaxis":
+            if tnum.is_newaxis(it):
                 spec.append(None)
             elif isinstance(it, ast.Slice):
                 if it.step is not None:
@@ -959,7 +1017,7 @@ def generate(repo):
     src = os.path.join(repo, "src", "pyfvtool")
 
     def parse(f):
-        return ast.parse(open(os.path.join(src, f)).read())
+        return tnum.note_module(ast.parse(open(os.path.join(src, f)).read()))
     status = {}
     mesh = MeshInfo(parse("mesh.py"))
     tree = parse("advection.py")
